@@ -88,6 +88,7 @@ func genC11(t *rapid.T) C11Case {
 	if c.Enc.Recipient != nil {
 		c.Enc.RecipWrap = rapid.SampledFrom([]int{0, 0, 64, 76, -64, -76, 1}).Draw(t, "recipWrap")
 	}
+	c.Enc.KeySize = rapid.IntRange(0, 2).Draw(t, "keySizeChild") == 0
 	if !c.Enc.Detached {
 		c.Enc.Decoy = rapid.SampledFrom([]string{"", "", "other", "garbage"}).Draw(t, "decoyKey")
 	}
@@ -148,7 +149,7 @@ func checkC11(c C11Case) h.Outcome {
 	fixtureCombo := (c.Enc.DataAlg == types.MethodAES128CBC || c.Enc.DataAlg == types.MethodAES256CBC) && c.Enc.Transport == types.MethodRSAOAEP && c.Enc.Digest == "-" && !c.Enc.Detached && c.KeyMode == "tls"
 	o.NonTrivial = !fixtureCombo
 	o.Classes = []string{"alg:" + shortAlg(c.Enc.DataAlg), "transport:" + shortAlg(c.Enc.Transport), "digest:" + shortAlg(c.Enc.Digest), fmt.Sprintf("detached:%v", c.Enc.Detached),
-		fmt.Sprintf("recipient:%v/wrap:%d", c.Enc.Recipient != nil, c.Enc.RecipWrap), "decoy:" + c.Enc.Decoy, "key:" + c.KeyMode, fmt.Sprintf("len%%16:%d", len(c.Plain)%16), fmt.Sprintf("twin:%v", c.Twin), fmt.Sprintf("twoEncrypted:%v", c.Enc2 != nil), fmt.Sprintf("inheritNS:%v", c.InheritNS), fmt.Sprintf("plainFirst:%v", c.PlainFirst), fmt.Sprintf("pretty:%v", c.Pretty), "spkey:" + c.Enc.To.Key}
+		fmt.Sprintf("recipient:%v/wrap:%d", c.Enc.Recipient != nil, c.Enc.RecipWrap), "decoy:" + c.Enc.Decoy, fmt.Sprintf("keySize:%v", c.Enc.KeySize), "key:" + c.KeyMode, fmt.Sprintf("len%%16:%d", len(c.Plain)%16), fmt.Sprintf("twin:%v", c.Twin), fmt.Sprintf("twoEncrypted:%v", c.Enc2 != nil), fmt.Sprintf("inheritNS:%v", c.InheritNS), fmt.Sprintf("plainFirst:%v", c.PlainFirst), fmt.Sprintf("pretty:%v", c.Pretty), "spkey:" + c.Enc.To.Key}
 	if n := len(c.Plain); n > 0 && c.Plain[n-1] == 0 {
 		o.Classes = append(o.Classes, "plain-ends-in-zero")
 	}
